@@ -61,8 +61,8 @@ def wfChunk : Chunk → Bool
   | .heartbeat ps => (match ps with | [.heartbeatInfo i] => fits (4 + i.length) | _ => false)
   | .heartbeatEmpty typ _ raw => typ = ctHeartbeat && raw.isEmpty
   | .heartbeatAck _ ps => (match ps with | [.heartbeatInfo i] => fits (4 + i.length) | _ => false)
-  | .abort cs => cs.all wfCause && fits (cs.foldl (fun n c => n + 4 + c.data.length) 0)
-  | .error cs => cs.all wfCause && fits (cs.foldl (fun n c => n + 4 + c.data.length) 0)
+  | .abort cs => cs.all wfCause && fits (cs.map fun c => 4 + c.data.length).sum
+  | .error cs => cs.all wfCause && fits (cs.map fun c => 4 + c.data.length).sum
   | .shutdown _ _ => true
   | .shutdownAck _ raw => fits raw.length
   | .shutdownComplete _ raw => fits raw.length
